@@ -895,14 +895,14 @@ def inline_helpers(text):
                     break
             if hit is None:
                 break
-            params, expr = INLINE_HELPERS["." + toks[hit].text]
+            params, expr, blk, ptypes = INLINE_HELPERS["." + toks[hit].text]
             r0 = recv_start(toks, hit - 1)
             recv = text[toks[r0].start:toks[hit - 1].start]
             if not _PLACE.match(recv):
                 raise Undecided(f"R25: receiver of helper method `{toks[hit].text}` is not a plain place")
             method_recv = (r0, recv)
         else:
-            params, expr = INLINE_HELPERS[toks[hit].text]
+            params, expr, blk, ptypes = INLINE_HELPERS[toks[hit].text]
             method_recv = None
         op = hit + 1
         cl = match_close(toks, op)
@@ -925,13 +925,18 @@ def inline_helpers(text):
             raise Undecided(f"R25: call of helper `{toks[hit].text}` with arguments that are not plain places")
         et = tokenize(expr)
         out, pos = [], 0
-        for t_ in et:
-            if t_.kind == "ident" and t_.text in params:
-                k_ = et.index(t_)
+        # R25b (block body): ordinary parameters are let-bound with their declared types in front of the body -- the meaning of a call --
+        # and only `self` is substituted; a one-expression body has every parameter substituted
+        subst = ["self"] if blk else params
+        for k_, t_ in enumerate(et):
+            if t_.kind == "ident" and t_.text in subst:
                 if k_ > 0 and et[k_ - 1].text in (".", "::"):
                     continue
                 out.append(expr[pos:t_.start]); out.append("(" + args[params.index(t_.text)].strip() + ")"); pos = t_.end
         out.append(expr[pos:])
+        if blk:
+            binds = "".join(f"let {pn}: {pt} = {args[i_].strip()}; " for i_, (pn, pt) in enumerate(zip(params, ptypes)) if pn != "self")
+            out = ["{ " + binds] + out + [" }"]
         ed = Edit(text)
         ed.replace(toks[method_recv[0]].start if method_recv is not None else toks[hit].start, toks[cl].end, "(" + "".join(out) + ")")
         text = ed.apply()
